@@ -1,12 +1,1052 @@
-//! shared BDD history engine (C01 / C02b / C16b) – filled in below
-use crate::core::*;
-use serde_json::Value;
+//! Shared BDD-builder history engine. One set of operation histories on the real `RobddBuilder`
+//! serves three properties; each violation is tagged with the property it contradicts:
+//!   C01 – the result's truth table differs from the operation's definition, or an earlier
+//!         result stopped denoting its function;
+//!   C02 – two pointers for one function / `eq` disagrees / ill-shaped node;
+//!   C16 – a builder with the lossy cache returns a structurally different diagram than the
+//!         cache-everything builder in lock step.
+//! Regimes: R1 = all short histories over n = 2 in fresh builders; R2 = saturation sweep over all
+//! 256 functions of 3 variables in one long-lived builder per configuration; R4 = n = 4 slices.
 
-pub fn run_for(_ctx: &Ctx, _prop: &str) -> Report {
-    let mut r = Report::default();
-    r.exhaustive = true;
-    r
+use crate::core::*;
+use crate::tt::{self, TT};
+use crate::walk::*;
+use rsdd::builder::bdd::{BddBuilder, RobddBuilder};
+use rsdd::builder::cache::IteTable;
+use rsdd::builder::BottomUpBuilder;
+use rsdd::repr::{BddPtr, DDNNFPtr, PartialModel, VarLabel, VarOrder};
+use serde_json::{json, Value};
+use std::collections::HashMap;
+
+#[derive(Clone, Copy, Debug, PartialEq, Eq)]
+pub enum CacheKind {
+    All,
+    /// lossy cache with 2^p slots initially (None = library default 2^16)
+    Lru(Option<usize>),
 }
-pub fn replay_for(_ctx: &Ctx, _prop: &str, _case: &Value) -> Report {
-    Report::default()
+
+#[derive(Clone, Debug)]
+pub struct Cfg {
+    pub n: usize,
+    pub order: Vec<usize>,
+    pub cache: CacheKind,
+    /// initial unique-table capacity through the hook (0 = library default)
+    pub table_cap: usize,
+    /// which of the fixed issue orders of the sweep to use
+    pub issue: usize,
+    /// regime and size knobs
+    pub ite_pool: usize,
+    pub full_ite: bool,
+}
+
+impl Cfg {
+    pub fn json(&self) -> Value {
+        json!({"n": self.n, "order": self.order, "cache": match self.cache { CacheKind::All => json!("all"), CacheKind::Lru(None) => json!("lru-default"), CacheKind::Lru(Some(p)) => json!(format!("lru-2^{}", p)) },
+               "table_cap": self.table_cap, "issue": self.issue, "ite_pool": self.ite_pool, "full_ite": self.full_ite})
+    }
+    pub fn from_json(v: &Value) -> Option<Cfg> {
+        let cache = match v["cache"].as_str()? {
+            "all" => CacheKind::All,
+            "lru-default" => CacheKind::Lru(None),
+            s => CacheKind::Lru(Some(s.strip_prefix("lru-2^")?.parse().ok()?)),
+        };
+        Some(Cfg {
+            n: v["n"].as_u64()? as usize,
+            order: v["order"].as_array()?.iter().filter_map(|x| x.as_u64()).map(|x| x as usize).collect(),
+            cache,
+            table_cap: v["table_cap"].as_u64()? as usize,
+            issue: v["issue"].as_u64()? as usize,
+            ite_pool: v["ite_pool"].as_u64()? as usize,
+            full_ite: v["full_ite"].as_bool()?,
+        })
+    }
+    fn var_order(&self) -> VarOrder {
+        let v: Vec<VarLabel> = self.order.iter().map(|&x| VarLabel::new(x as u64)).collect();
+        VarOrder::new(&v)
+    }
+}
+
+/// run `$body` with `$b` bound to a fresh builder of the configuration's cache type
+#[macro_export]
+macro_rules! with_bdd_builder {
+    ($cfg:expr, |$b:ident| $body:expr) => {{
+        rsdd::verif::set_table_capacity($cfg.table_cap);
+        match $cfg.cache {
+            $crate::props::bddsweep::CacheKind::All => {
+                let $b = rsdd::builder::bdd::RobddBuilder::<rsdd::builder::cache::AllIteTable<rsdd::repr::BddPtr>>::new($cfg.var_order_pub());
+                rsdd::verif::set_table_capacity(0);
+                $body
+            }
+            $crate::props::bddsweep::CacheKind::Lru(p) => {
+                rsdd::verif::set_lru_ite_capacity(p);
+                let $b = rsdd::builder::bdd::RobddBuilder::<rsdd::builder::cache::LruIteTable<rsdd::repr::BddPtr>>::new($cfg.var_order_pub());
+                rsdd::verif::set_lru_ite_capacity(None);
+                rsdd::verif::set_table_capacity(0);
+                $body
+            }
+        }
+    }};
+}
+
+impl Cfg {
+    pub fn var_order_pub(&self) -> VarOrder {
+        self.var_order()
+    }
+}
+
+/// description of one operation, enough to re-issue it
+#[derive(Clone, Debug)]
+pub enum Op {
+    And(TT, TT),
+    Or(TT, TT),
+    Xor(TT, TT),
+    Iff(TT, TT),
+    Ite(TT, TT, TT),
+    Neg(TT),
+    Cond(TT, usize, bool),
+    Exists(TT, usize),
+    Compose(TT, usize, TT),
+    CondModel(TT, usize), // model code in base 3 (0 unset, 1 true, 2 false) per variable
+    AndLst(Vec<TT>),
+    OrLst(Vec<TT>),
+    Materialise(TT),
+}
+
+impl Op {
+    fn json(&self) -> Value {
+        json!(format!("{:?}", self))
+    }
+}
+
+struct Sw<'a, 'e, T: IteTable<'a, BddPtr<'a>> + Default> {
+    b: &'a RobddBuilder<'a, T>,
+    cfg: Cfg,
+    n: usize,
+    /// position of each label in the builder's current order
+    level: Vec<usize>,
+    /// function -> pointer identity (both polarities entered)
+    canon: HashMap<TT, (usize, bool)>,
+    /// materialised functions
+    f: Vec<BddPtr<'a>>,
+    rep: Report,
+    digests: Vec<u64>,
+    expected: Option<&'e [u64]>,
+    opno: u64,
+    compl_roots: u64,
+    new_funcs: u64,
+    stop: bool,
+}
+
+fn structure_digest(p: BddPtr) -> u64 {
+    let (tbl, root) = bdd_structure(p);
+    let mut h: u64 = 0xcbf29ce484222325;
+    let mut mix = |x: u64| {
+        h = (h ^ x).wrapping_mul(0x100000001b3);
+        h ^= h >> 32;
+    };
+    for (v, l, hi) in tbl {
+        mix(v);
+        mix(l as u64);
+        mix(hi as u64);
+    }
+    mix(root as u64);
+    h
+}
+
+impl<'a, 'e, T: IteTable<'a, BddPtr<'a>> + Default> Sw<'a, 'e, T> {
+    fn viol(&mut self, prop: &str, key: &str, what: String, op: &Op) {
+        let case = json!({"kind": "bdd_sweep", "cfg": self.cfg.json(), "op_number": self.opno, "op": op.json()});
+        self.rep.violation(format!("{}:{}", prop, key), what, case);
+    }
+
+    /// the central oracle: check one result against its definition and the canonicity map
+    fn check(&mut self, r: Result<BddPtr<'a>, String>, want: TT, op: &Op) -> Option<BddPtr<'a>> {
+        self.opno += 1;
+        self.rep.transitions += 1;
+        let r = match r {
+            Ok(r) => r,
+            Err(p) => {
+                self.viol("C01", "panic", format!("{:?} panicked: {}", op, p), op);
+                return None;
+            }
+        };
+        let got = bdd_tt(r, self.n);
+        if got != want {
+            self.viol(
+                "C01",
+                "wrong-function",
+                format!("{:?} [{}] returned the function {:#x}, the definition gives {:#x}", op, self.cfg.json(), got, want),
+                op,
+            );
+        }
+        if matches!(r, BddPtr::Compl(_)) {
+            self.compl_roots += 1;
+        }
+        // canonicity: one pointer per function
+        let id = bdd_id(r);
+        match self.canon.get(&got) {
+            Some(&old) => {
+                if old != id {
+                    self.viol(
+                        "C02",
+                        "two-pointers-one-function",
+                        format!("{:?} [{}] returned a second, different pointer for the function {:#x}", op, self.cfg.json(), got),
+                        op,
+                    );
+                }
+            }
+            None => {
+                self.new_funcs += 1;
+                self.canon.insert(got, id);
+                self.canon.insert(tt::not(got, self.n), bdd_id(r.neg()));
+                let lv = self.level.clone();
+                if let Some(d) = bdd_shape_defect(r, &|v| lv[v]) {
+                    self.viol("C02", "ill-shaped", format!("{:?} [{}]: {}", op, self.cfg.json(), d), op);
+                }
+            }
+        }
+        // constants must be the constant pointers (pointer identity with true/false)
+        if got == tt::mask(self.n) && !r.is_true() || got == 0 && !r.is_false() {
+            self.viol("C02", "non-constant-pointer-for-constant", format!("{:?}: constant function not represented by the constant pointer", op), op);
+        }
+        // lock step with the cache-everything builder
+        let d = structure_digest(r);
+        if let Some(exp) = self.expected {
+            let i = self.digests.len();
+            if i < exp.len() && exp[i] != d {
+                self.viol(
+                    "C16",
+                    "lossy-cache-changes-result",
+                    format!("{:?} [{}]: diagram differs structurally from the one the cache-everything builder returned at the same step", op, self.cfg.json()),
+                    op,
+                );
+            }
+        }
+        self.digests.push(d);
+        if self.rep.n_violations > 64 {
+            self.stop = true;
+        }
+        Some(r)
+    }
+
+    /// "keeps denoting the same function": re-evaluate every materialised function
+    fn recheck_pool(&mut self) {
+        for t in 0..self.f.len() {
+            let want = tt::extend(t as TT, self.cfg.n, self.n);
+            let got = bdd_tt(self.f[t], self.n);
+            self.rep.evaluations += 1;
+            if got != want {
+                let op = Op::Materialise(t as TT);
+                self.viol("C01", "earlier-result-changed", format!("function {:#x} built earlier now evaluates to {:#x} [{}]", want, got, self.cfg.json()), &op);
+            }
+        }
+    }
+
+    fn model_of(&self, code: usize) -> (PartialModel, Vec<Option<bool>>) {
+        let mut a = Vec::new();
+        let mut c = code;
+        for _ in 0..self.n {
+            a.push(match c % 3 {
+                0 => None,
+                1 => Some(true),
+                _ => Some(false),
+            });
+            c /= 3;
+        }
+        (PartialModel::from_assignments(&a), a)
+    }
+
+    /// issue one operation on the real builder and check it
+    fn issue(&mut self, op: Op) -> Option<BddPtr<'a>> {
+        let n = self.n;
+        let b = self.b;
+        let p = |s: &Self, t: TT| -> BddPtr<'a> { s.ptr_of(t) };
+        let (res, want): (Result<BddPtr<'a>, String>, TT) = match &op {
+            Op::And(x, y) => {
+                let (px, py) = (p(self, *x), p(self, *y));
+                (guarded(|| b.and(px, py)), x & y)
+            }
+            Op::Or(x, y) => {
+                let (px, py) = (p(self, *x), p(self, *y));
+                (guarded(|| b.or(px, py)), x | y)
+            }
+            Op::Xor(x, y) => {
+                let (px, py) = (p(self, *x), p(self, *y));
+                (guarded(|| b.xor(px, py)), x ^ y)
+            }
+            Op::Iff(x, y) => {
+                let (px, py) = (p(self, *x), p(self, *y));
+                (guarded(|| b.iff(px, py)), tt::iff(*x, *y, n))
+            }
+            Op::Ite(x, y, z) => {
+                let (px, py, pz) = (p(self, *x), p(self, *y), p(self, *z));
+                (guarded(|| b.ite(px, py, pz)), tt::ite(*x, *y, *z, n))
+            }
+            Op::Neg(x) => {
+                let px = p(self, *x);
+                (guarded(|| b.negate(px)), tt::not(*x, n))
+            }
+            Op::Cond(x, v, val) => {
+                let px = p(self, *x);
+                (guarded(|| b.condition(px, VarLabel::new(*v as u64), *val)), tt::cofactor(*x, *v, *val, n))
+            }
+            Op::Exists(x, v) => {
+                let px = p(self, *x);
+                (guarded(|| b.exists(px, VarLabel::new(*v as u64))), tt::exists(*x, *v, n))
+            }
+            Op::Compose(x, v, g) => {
+                let (px, pg) = (p(self, *x), p(self, *g));
+                (guarded(|| b.compose(px, VarLabel::new(*v as u64), pg)), tt::compose_def(*x, *v, *g, n))
+            }
+            Op::CondModel(x, code) => {
+                let px = p(self, *x);
+                let (m, a) = self.model_of(*code);
+                let mut want = *x;
+                for (v, val) in a.iter().enumerate() {
+                    if let Some(val) = val {
+                        want = tt::cofactor(want, v, *val, n);
+                    }
+                }
+                (guarded(|| b.condition_model(px, &m)), want)
+            }
+            Op::AndLst(xs) => {
+                let ps: Vec<BddPtr<'a>> = xs.iter().map(|t| p(self, *t)).collect();
+                (guarded(|| b.and_lst(&ps)), xs.iter().fold(tt::mask(n), |a, t| a & t))
+            }
+            Op::OrLst(xs) => {
+                let ps: Vec<BddPtr<'a>> = xs.iter().map(|t| p(self, *t)).collect();
+                (guarded(|| b.or_lst(&ps)), xs.iter().fold(0, |a, t| a | t))
+            }
+            Op::Materialise(t) => (Ok(self.ptr_of(*t)), *t),
+        };
+        self.check(res, want, &op)
+    }
+
+    /// pointer of a function of the current variable set: the canonical pointer recorded for it
+    /// (all functions the sweeps use as arguments were materialised and verified before)
+    fn ptr_of(&self, t: TT) -> BddPtr<'a> {
+        // arguments are always functions over the first cfg.n variables (materialised), possibly
+        // extended to the grown variable set
+        let base = if self.n == self.cfg.n {
+            t
+        } else {
+            // project back: extended functions do not depend on the new variables
+            t & tt::mask(self.cfg.n)
+        };
+        self.f[base as usize]
+    }
+
+    /// build the function with table `t` over variables v.. by Shannon expansion with `ite`
+    /// on label order 0,1,2,.. (deliberately not the builder's order)
+    fn shannon(&mut self, t: TT, v: usize) -> BddPtr<'a> {
+        let n = self.n;
+        if t == 0 {
+            return BddPtr::PtrFalse;
+        }
+        if t == tt::mask(n) {
+            return BddPtr::PtrTrue;
+        }
+        if v >= n {
+            unreachable!()
+        }
+        if !tt::depends_on(t, v, n) {
+            return self.shannon(t, v + 1);
+        }
+        let hi = self.shannon(tt::cofactor(t, v, true, n), v + 1);
+        let lo = self.shannon(tt::cofactor(t, v, false, n), v + 1);
+        let x = self.b.var(VarLabel::new(v as u64), true);
+        self.rep.transitions += 1;
+        self.b.ite(x, hi, lo)
+    }
+
+    fn materialise_all(&mut self) {
+        let n = self.n;
+        let total = 1usize << (1usize << n);
+        for t in 0..total {
+            let r = guarded(|| self.shannon(t as TT, 0));
+            let r = match r {
+                Ok(r) => r,
+                Err(p) => {
+                    let op = Op::Materialise(t as TT);
+                    self.viol("C01", "panic", format!("building {:#x} by ite panicked: {}", t, p), &op);
+                    BddPtr::PtrFalse
+                }
+            };
+            self.f.push(r);
+            let op = Op::Materialise(t as TT);
+            self.check(Ok(r), t as TT, &op);
+        }
+    }
+}
+
+fn issue_perm(k: usize, m: usize) -> Vec<usize> {
+    let bits = (m as f64).log2().ceil() as u32;
+    match k % 3 {
+        0 => (0..m).collect(),
+        1 => (0..m).rev().collect(),
+        _ => {
+            let mut v: Vec<usize> = (0..m)
+                .map(|i| ((i as u32).reverse_bits() >> (32 - bits.max(1))) as usize)
+                .collect();
+            if !v.iter().all(|&x| x < m) {
+                v = (0..m).collect();
+            }
+            v
+        }
+    }
+}
+
+/// the n = 3 (or 2) saturation sweep in one builder
+fn sweep<'a, 'e, T: IteTable<'a, BddPtr<'a>> + Default>(
+    b: &'a RobddBuilder<'a, T>,
+    cfg: &Cfg,
+    expected: Option<&'e [u64]>,
+    ctx: &Ctx,
+) -> (Report, Vec<u64>) {
+    let n = cfg.n;
+    let mut level = vec![0; n];
+    for (pos, &v) in cfg.order.iter().enumerate() {
+        level[v] = pos;
+    }
+    let mut s = Sw {
+        b,
+        cfg: cfg.clone(),
+        n,
+        level,
+        canon: HashMap::new(),
+        f: Vec::new(),
+        rep: Report::default(),
+        digests: Vec::new(),
+        expected,
+        opno: 0,
+        compl_roots: 0,
+        new_funcs: 0,
+        stop: false,
+    };
+    s.rep.exhaustive = true;
+    s.canon.insert(tt::mask(n), (0, false));
+    s.canon.insert(0, (0, true));
+    s.materialise_all();
+    let total = s.f.len();
+    let perm = issue_perm(cfg.issue, total);
+    // all ordered pairs x {and, or, xor, iff}
+    'outer: for &i in perm.iter() {
+        for &j in perm.iter() {
+            let (x, y) = (i as TT, j as TT);
+            s.issue(Op::And(x, y));
+            s.issue(Op::Or(x, y));
+            s.issue(Op::Xor(x, y));
+            s.issue(Op::Iff(x, y));
+            if s.stop {
+                break 'outer;
+            }
+        }
+        if i % 32 == 0 {
+            s.recheck_pool();
+            if ctx.over_time() {
+                s.rep.cap("wall-clock cap inside the pair sweep");
+                break;
+            }
+        }
+    }
+    // unary operations
+    if !s.stop {
+        for &i in perm.iter() {
+            let x = i as TT;
+            s.issue(Op::Neg(x));
+            for v in 0..n {
+                s.issue(Op::Cond(x, v, true));
+                s.issue(Op::Cond(x, v, false));
+                s.issue(Op::Exists(x, v));
+            }
+            for code in 0..3usize.pow(n as u32) {
+                s.issue(Op::CondModel(x, code));
+            }
+        }
+        s.recheck_pool();
+    }
+    // compose: all f x v x g
+    if !s.stop {
+        'c: for &i in perm.iter() {
+            for v in 0..n {
+                for &j in perm.iter() {
+                    s.issue(Op::Compose(i as TT, v, j as TT));
+                    if s.stop {
+                        break 'c;
+                    }
+                }
+            }
+        }
+        s.recheck_pool();
+    }
+    // ite over triples
+    if !s.stop {
+        let pool: Vec<usize> = if cfg.full_ite {
+            perm.clone()
+        } else {
+            // a rule-defined subset: the first `ite_pool` functions in the issue order of the
+            // 2-variable functions over each variable pair, then arbitrary ones
+            let mut p: Vec<usize> = Vec::new();
+            if n >= 2 {
+                for a in 0..n {
+                    for c in (a + 1)..n {
+                        for t2 in 0..16u64 {
+                            // embed the 2-variable function t2 over (a, c)
+                            let mut t = 0u64;
+                            for asg in 0..(1usize << n) {
+                                let i2 = ((asg >> a) & 1) | (((asg >> c) & 1) << 1);
+                                if (t2 >> i2) & 1 == 1 {
+                                    t |= 1 << asg;
+                                }
+                            }
+                            if !p.contains(&(t as usize)) {
+                                p.push(t as usize);
+                            }
+                        }
+                    }
+                }
+            }
+            for &i in perm.iter() {
+                if p.len() >= cfg.ite_pool {
+                    break;
+                }
+                if !p.contains(&i) {
+                    p.push(i);
+                }
+            }
+            p.truncate(cfg.ite_pool.max(1));
+            p
+        };
+        'i: for (ii, &i) in pool.iter().enumerate() {
+            for &j in pool.iter() {
+                for &k in pool.iter() {
+                    s.issue(Op::Ite(i as TT, j as TT, k as TT));
+                }
+                if s.stop {
+                    break 'i;
+                }
+            }
+            if ii % 8 == 0 && ctx.over_time() {
+                s.rep.cap("wall-clock cap inside the ite sweep");
+                break;
+            }
+        }
+        s.recheck_pool();
+    }
+    // lists
+    if !s.stop {
+        let pool: Vec<usize> = perm.iter().cloned().step_by((total / 12).max(1)).collect();
+        s.issue(Op::AndLst(vec![]));
+        s.issue(Op::OrLst(vec![]));
+        for &i in pool.iter() {
+            s.issue(Op::AndLst(vec![i as TT]));
+            s.issue(Op::OrLst(vec![i as TT]));
+            for &j in pool.iter() {
+                s.issue(Op::AndLst(vec![i as TT, j as TT]));
+                s.issue(Op::OrLst(vec![i as TT, j as TT]));
+                for &k in pool.iter() {
+                    s.issue(Op::AndLst(vec![i as TT, j as TT, k as TT]));
+                    s.issue(Op::OrLst(vec![i as TT, j as TT, k as TT]));
+                }
+            }
+        }
+    }
+    // variables added at run time: the order grows, old diagrams keep their meaning
+    if !s.stop {
+        for round in 0..2 {
+            let pol = round == 0;
+            let r = guarded(|| b.new_var(pol));
+            match r {
+                Err(p) => {
+                    let op = Op::Materialise(0);
+                    s.viol("C01", "panic", format!("new_var panicked: {}", p), &op);
+                    break;
+                }
+                Ok((lbl, ptr)) => {
+                    let newv = s.n;
+                    if lbl.value_usize() != newv {
+                        let op = Op::Materialise(0);
+                        s.viol("C01", "new-var-label", format!("new_var returned label {} for the {}-variable builder", lbl.value(), newv), &op);
+                        break;
+                    }
+                    s.n += 1;
+                    s.level.push(newv);
+                    let n2 = s.n;
+                    // re-key the canonicity map to the wider tables
+                    let old: Vec<(TT, (usize, bool))> = s.canon.drain().collect();
+                    for (t, id) in old {
+                        s.canon.insert(tt::extend(t, n2 - 1, n2), id);
+                    }
+                    let xl = tt::lit(newv, pol, n2);
+                    let op0 = Op::Materialise(xl);
+                    s.opno += 1;
+                    // the new literal itself
+                    let got = bdd_tt(ptr, n2);
+                    s.rep.transitions += 1;
+                    if got != xl {
+                        s.viol("C01", "wrong-function", format!("new_var({}) denotes {:#x}", pol, got), &op0);
+                    }
+                    s.recheck_pool();
+                    // binary / ternary operations mixing old functions and the new variable
+                    for &i in perm.iter() {
+                        let x = tt::extend(i as TT, cfg.n, n2);
+                        let px = s.f[i];
+                        for (name, res, want) in [
+                            ("and", guarded(|| b.and(px, ptr)), x & xl),
+                            ("or", guarded(|| b.or(ptr, px)), x | xl),
+                            ("xor", guarded(|| b.xor(px, ptr)), x ^ xl),
+                            ("iff", guarded(|| b.iff(ptr, px)), tt::iff(x, xl, n2)),
+                        ] {
+                            let op = Op::Materialise(want);
+                            let _ = name;
+                            if let Some(r) = s.check(res, want, &op) {
+                                // conditioning / quantifying the new variable away again
+                                for val in [true, false] {
+                                    let w = tt::cofactor(want, newv, val, n2);
+                                    let rr = guarded(|| b.condition(r, VarLabel::new(newv as u64), val));
+                                    s.check(rr, w, &Op::Cond(want, newv, val));
+                                }
+                                let rr = guarded(|| b.exists(r, VarLabel::new(newv as u64)));
+                                s.check(rr, tt::exists(want, newv, n2), &Op::Exists(want, newv));
+                            }
+                        }
+                        // ite(newvar, f, g) for a slice of g
+                        for &j in perm.iter().step_by(17) {
+                            let y = tt::extend(j as TT, cfg.n, n2);
+                            let py = s.f[j];
+                            let res = guarded(|| b.ite(ptr, px, py));
+                            s.check(res, tt::ite(xl, x, y, n2), &Op::Ite(xl, x, y));
+                            let res = guarded(|| b.ite(px, ptr, py));
+                            s.check(res, tt::ite(x, xl, y, n2), &Op::Ite(x, xl, y));
+                        }
+                        // compose an old variable by the new literal
+                        for v in 0..cfg.n {
+                            let res = guarded(|| b.compose(px, VarLabel::new(v as u64), ptr));
+                            s.check(res, tt::compose_def(x, v, xl, n2), &Op::Compose(x, v, xl));
+                        }
+                        if s.stop {
+                            break;
+                        }
+                    }
+                }
+            }
+        }
+        s.recheck_pool();
+    }
+    let (cap, len, _hits) = b.verif_table_stats();
+    let mut rep = s.rep;
+    rep.traces = 1;
+    rep.states = s.new_funcs;
+    rep.evaluations += rep.transitions;
+    rep.add_extra("complemented_roots_seen", s.compl_roots);
+    rep.add_extra("unique_table_final_capacity_max", cap as u64);
+    rep.add_extra("unique_table_nodes", len as u64);
+    if cfg.table_cap != 0 {
+        rep.add_extra("table_growths", (cap as f64 / cfg.table_cap as f64).log2().round() as u64);
+    }
+    (rep, s.digests)
+}
+
+// ---------------------------------------------------------------------------------------------
+// R1: all short histories over n = 2, each in a fresh builder
+
+#[derive(Clone, Debug, PartialEq)]
+enum A1 {
+    Bin(u8, usize, usize), // 0 and 1 or 2 xor 3 iff
+    Ite(usize, usize, usize),
+    Neg(usize),
+    Cond(usize, usize, bool),
+    Exists(usize, usize),
+    Compose(usize, usize, usize),
+    CondModel(usize, usize),
+    NewVar(bool),
+}
+
+fn r1_actions(pool: usize, n: usize, reduced: bool) -> Vec<A1> {
+    let mut v = Vec::new();
+    for i in 0..pool {
+        for j in 0..pool {
+            for o in 0..4 {
+                v.push(A1::Bin(o, i, j));
+            }
+        }
+    }
+    for i in 0..pool {
+        for j in 0..pool {
+            for k in 0..pool {
+                v.push(A1::Ite(i, j, k));
+            }
+        }
+    }
+    for i in 0..pool {
+        v.push(A1::Neg(i));
+        for x in 0..n {
+            v.push(A1::Cond(i, x, true));
+            v.push(A1::Cond(i, x, false));
+            v.push(A1::Exists(i, x));
+        }
+    }
+    if !reduced {
+        for i in 0..pool {
+            for x in 0..n {
+                for j in 0..pool {
+                    v.push(A1::Compose(i, x, j));
+                }
+            }
+            for code in 0..3usize.pow(n as u32) {
+                v.push(A1::CondModel(i, code));
+            }
+        }
+        v.push(A1::NewVar(true));
+        v.push(A1::NewVar(false));
+    }
+    v
+}
+
+/// run one history in a fresh builder; returns the first violation (property, key, text)
+fn r1_run<'a, T: IteTable<'a, BddPtr<'a>> + Default>(
+    b: &'a RobddBuilder<'a, T>,
+    cfg: &Cfg,
+    hist: &[A1],
+    transitions: &mut u64,
+) -> Option<(String, String, String)> {
+    let mut n = cfg.n;
+    let mut level = vec![0; n];
+    for (pos, &v) in cfg.order.iter().enumerate() {
+        level[v] = pos;
+    }
+    let mut pool: Vec<(BddPtr<'a>, TT)> = vec![(BddPtr::PtrTrue, tt::mask(n)), (BddPtr::PtrFalse, 0)];
+    for v in 0..n {
+        pool.push((b.var(VarLabel::new(v as u64), true), tt::var(v, n)));
+        pool.push((b.var(VarLabel::new(v as u64), false), tt::not(tt::var(v, n), n)));
+    }
+    for (step, a) in hist.iter().enumerate() {
+        *transitions += 1;
+        let arg = |i: usize| pool[i.min(pool.len() - 1)];
+        let (res, want): (Result<BddPtr<'a>, String>, TT) = match a {
+            A1::Bin(o, i, j) => {
+                let ((p, x), (q, y)) = (arg(*i), arg(*j));
+                match o {
+                    0 => (guarded(|| b.and(p, q)), x & y),
+                    1 => (guarded(|| b.or(p, q)), x | y),
+                    2 => (guarded(|| b.xor(p, q)), x ^ y),
+                    _ => (guarded(|| b.iff(p, q)), tt::iff(x, y, n)),
+                }
+            }
+            A1::Ite(i, j, k) => {
+                let ((p, x), (q, y), (r, z)) = (arg(*i), arg(*j), arg(*k));
+                (guarded(|| b.ite(p, q, r)), tt::ite(x, y, z, n))
+            }
+            A1::Neg(i) => {
+                let (p, x) = arg(*i);
+                (guarded(|| b.negate(p)), tt::not(x, n))
+            }
+            A1::Cond(i, v, val) => {
+                let (p, x) = arg(*i);
+                (guarded(|| b.condition(p, VarLabel::new(*v as u64), *val)), tt::cofactor(x, *v, *val, n))
+            }
+            A1::Exists(i, v) => {
+                let (p, x) = arg(*i);
+                (guarded(|| b.exists(p, VarLabel::new(*v as u64))), tt::exists(x, *v, n))
+            }
+            A1::Compose(i, v, j) => {
+                let ((p, x), (q, y)) = (arg(*i), arg(*j));
+                (guarded(|| b.compose(p, VarLabel::new(*v as u64), q)), tt::compose_def(x, *v, y, n))
+            }
+            A1::CondModel(i, code) => {
+                let (p, x) = arg(*i);
+                let mut asg = Vec::new();
+                let mut c = *code;
+                let mut want = x;
+                for v in 0..n {
+                    let e = match c % 3 {
+                        0 => None,
+                        1 => Some(true),
+                        _ => Some(false),
+                    };
+                    if let Some(val) = e {
+                        want = tt::cofactor(want, v, val, n);
+                    }
+                    asg.push(e);
+                    c /= 3;
+                }
+                let m = PartialModel::from_assignments(&asg);
+                (guarded(|| b.condition_model(p, &m)), want)
+            }
+            A1::NewVar(pol) => {
+                let r = guarded(|| b.new_var(*pol));
+                match r {
+                    Err(e) => (Err(e), 0),
+                    Ok((lbl, ptr)) => {
+                        if lbl.value_usize() != n {
+                            return Some(("C01".into(), "new-var-label".into(), format!("step {}: new_var returned label {}", step, lbl.value())));
+                        }
+                        n += 1;
+                        level.push(n - 1);
+                        for e in pool.iter_mut() {
+                            e.1 = tt::extend(e.1, n - 1, n);
+                        }
+                        (Ok(ptr), tt::lit(n - 1, *pol, n))
+                    }
+                }
+            }
+        };
+        let r = match res {
+            Ok(r) => r,
+            Err(p) => return Some(("C01".into(), "panic".into(), format!("step {} {:?} panicked: {}", step, a, p))),
+        };
+        let got = bdd_tt(r, n);
+        if got != want {
+            return Some(("C01".into(), "wrong-function".into(), format!("step {} {:?} returned {:#x}, definition gives {:#x}", step, a, got, want)));
+        }
+        let lv = level.clone();
+        if let Some(d) = bdd_shape_defect(r, &|v| lv[v]) {
+            return Some(("C02".into(), "ill-shaped".into(), format!("step {} {:?}: {}", step, a, d)));
+        }
+        // every pool member keeps its meaning and the pointer/function correspondence holds
+        for (q, y) in pool.iter() {
+            let gy = bdd_tt(*q, n);
+            if gy != *y {
+                return Some(("C01".into(), "earlier-result-changed".into(), format!("after step {} {:?} an earlier diagram of {:#x} evaluates to {:#x}", step, a, y, gy)));
+            }
+            let same_ptr = b.eq(*q, r);
+            if same_ptr != (*y == got) {
+                return Some(("C02".into(), "eq-disagrees-with-function".into(), format!("after step {} {:?}: eq = {} but functions {:#x} / {:#x}", step, a, same_ptr, y, got)));
+            }
+        }
+        pool.push((r, got));
+    }
+    None
+}
+
+fn a1_json(h: &[A1]) -> Value {
+    json!(h.iter().map(|a| format!("{:?}", a)).collect::<Vec<_>>())
+}
+
+fn r1_explore(cfg: &Cfg, depth: usize, reduced_last: bool, ctx: &Ctx) -> Report {
+    let mut rep = Report::default();
+    rep.exhaustive = true;
+    let n = cfg.n;
+    let base_pool = 2 + 2 * n;
+    // histories: first action over the base pool, second over base pool + 1, ...
+    fn rec(
+        cfg: &Cfg,
+        hist: &mut Vec<A1>,
+        depth: usize,
+        base_pool: usize,
+        reduced_last: bool,
+        rep: &mut Report,
+        ctx: &Ctx,
+    ) {
+        if hist.len() == depth {
+            let mut tr = 0u64;
+            let v = with_bdd_builder!(cfg, |b| r1_run(&b, cfg, hist, &mut tr));
+            rep.transitions += tr;
+            rep.traces += 1;
+            if let Some((prop, key, what)) = v {
+                rep.violation(
+                    format!("{}:{}", prop, key),
+                    format!("[{}] {}", cfg.json(), what),
+                    json!({"kind": "bdd_r1", "cfg": cfg.json(), "history": a1_json(hist)}),
+                );
+            }
+            return;
+        }
+        if rep.n_violations > 16 || ctx.over_time() {
+            if ctx.over_time() {
+                rep.cap("wall-clock cap inside R1");
+            }
+            return;
+        }
+        let last = hist.len() + 1 == depth;
+        let n_now = cfg.n + hist.iter().filter(|a| matches!(a, A1::NewVar(_))).count();
+        let acts = r1_actions(base_pool + hist.len(), n_now, reduced_last && last && depth >= 3);
+        for a in acts {
+            hist.push(a);
+            rec(cfg, hist, depth, base_pool, reduced_last, rep, ctx);
+            hist.pop();
+        }
+    }
+    for d in 1..=depth {
+        rec(cfg, &mut Vec::new(), d, base_pool, reduced_last, &mut rep, ctx);
+    }
+    rep.states = rep.traces;
+    rep.evaluations = rep.transitions;
+    rep.max_depth = depth as u64;
+    rep
+}
+
+// ---------------------------------------------------------------------------------------------
+// drivers
+
+fn run_sweep_cfg(cfg: &Cfg, expected: Option<&[u64]>, ctx: &Ctx) -> (Report, Vec<u64>) {
+    with_bdd_builder!(cfg, |b| sweep(&b, cfg, expected, ctx))
+}
+
+/// group = one variable order: the cache-everything builder first, then each lossy configuration
+/// in lock step against its digests
+fn run_order_group(order: &[usize], n: usize, ctx: &Ctx, issue: usize, full_ite_all: bool) -> Report {
+    let ite_pool = ctx.tier.pick(24, 40);
+    let base = Cfg {
+        n,
+        order: order.to_vec(),
+        cache: CacheKind::All,
+        table_cap: 2,
+        issue,
+        ite_pool,
+        full_ite: full_ite_all,
+    };
+    let (mut rep, digests) = run_sweep_cfg(&base, None, ctx);
+    let mut lossy: Vec<Cfg> = Vec::new();
+    for cache in [CacheKind::Lru(Some(0)), CacheKind::Lru(Some(2))] {
+        let mut c = base.clone();
+        c.cache = cache;
+        lossy.push(c);
+    }
+    if ctx.tier == Tier::Thorough {
+        for p in [1usize, 4] {
+            let mut c = base.clone();
+            c.cache = CacheKind::Lru(Some(p));
+            lossy.push(c);
+        }
+    }
+    for c in lossy {
+        let (r, _) = run_sweep_cfg(&c, Some(&digests), ctx);
+        rep.add_extra("configurations", 1);
+        rep.merge(r);
+    }
+    // default-capacity tables are 3 MB each and the default lossy cache has 2^16 slots: these
+    // configurations run the pool-sized ite sweep and are compared with a cache-everything run
+    // of the same (shorter) history
+    let mut small = base.clone();
+    small.full_ite = false;
+    let small_digests = if base.full_ite {
+        let (r, d) = run_sweep_cfg(&small, None, ctx);
+        rep.add_extra("configurations", 1);
+        rep.merge(r);
+        d
+    } else {
+        digests
+    };
+    for (cache, cap) in [(CacheKind::Lru(None), 0usize), (CacheKind::All, 0)] {
+        let mut c = small.clone();
+        c.cache = cache;
+        c.table_cap = cap;
+        let (r, _) = run_sweep_cfg(&c, Some(&small_digests), ctx);
+        rep.add_extra("configurations", 1);
+        rep.merge(r);
+    }
+    rep.add_extra("configurations", 1);
+    rep
+}
+
+pub fn run_all(ctx: &Ctx) -> Report {
+    let mut rep = Report::new(
+        "BDD-builder histories on the real code against truth tables: R2 = in one builder per configuration (order x cache kind/capacity x table capacity) all 256 functions of 3 variables are built and every ordered pair is combined by and/or/xor/iff, every function conditioned / quantified / conditioned on all 27 partial models / composed with every function on every variable, ite over all triples of a pool (all 256^3 in thorough), lists, and the same again after new_var; R1 = every history of <= d operations over n = 2 in a fresh builder; a case is distinct if it is a different (configuration, operation, arguments) triple and non-trivial if the result is not a constant",
+    );
+    // R2, n = 3
+    let orders = permutations(3);
+    let items: Vec<(usize, Vec<usize>)> = orders.into_iter().enumerate().collect();
+    let full = ctx.tier == Tier::Thorough;
+    let r2 = par_run(ctx, &items, |i, (_, o)| run_order_group(o, 3, ctx, i + ctx.seed as usize, full));
+    rep.bound("R2", json!({"variables": 3, "orders": 6, "caches": ["all", "lru-2^0", "lru-2^2", "lru-default", if full {"lru-2^1, lru-2^4"} else {"-"}], "table_capacities": [2, "default"], "ite_triples": if full {"256^3 (hooked-capacity configurations)"} else {"24^3 pool"}, "issue_orders": "lexicographic / reverse / bit-reversed, rotated by seed"}));
+    let growths = r2.extra.get("table_growths").and_then(|v| v.as_u64()).unwrap_or(0);
+    let compl = r2.extra.get("complemented_roots_seen").and_then(|v| v.as_u64()).unwrap_or(0);
+    rep.merge(r2);
+    rep.floor("R2: unique-table growths", growths, 1);
+    rep.floor("R2: complemented roots seen", compl, 1);
+    // R1, n = 2
+    let mut r1cfgs: Vec<Cfg> = Vec::new();
+    for o in permutations(2) {
+        for (cache, cap) in [(CacheKind::All, 2usize), (CacheKind::Lru(Some(0)), 2), (CacheKind::Lru(Some(1)), 2)] {
+            r1cfgs.push(Cfg { n: 2, order: o.clone(), cache, table_cap: cap, issue: 0, ite_pool: 0, full_ite: false });
+        }
+    }
+    let depth = ctx.tier.pick(2, 3);
+    // split by first action to use all cores: each item = (cfg, depth)
+    let r1 = par_run(ctx, &r1cfgs, |_, c| r1_explore(c, depth, true, ctx));
+    rep.bound("R1", json!({"variables": 2, "orders": 2, "caches": ["all", "lru-2^0", "lru-2^1"], "depth": depth, "alphabet": "and/or/xor/iff/ite/negate/condition/exists/compose/condition_model/new_var over the growing pool (last step of depth-3 histories: without compose/condition_model/new_var)"}));
+    rep.add_extra("R1_histories", r1.traces);
+    rep.merge(r1);
+    rep.distinct_nontrivial = rep.transitions;
+    rep.sample(json!({"cfg": {"order": [2, 0, 1], "cache": "lru-2^0", "table_cap": 2}, "ops": ["Ite(0x96, 0xe8, 0x17)", "Compose(0xca, 1, 0x3c)", "CondModel(0xd8, 5)"]}));
+    rep.sample(json!({"R1_history": ["Bin(2, 2, 5)", "Ite(6, 3, 4)"], "cfg": {"order": [1, 0], "cache": "all"}}));
+    rep.assumptions.push("truth-table oracle over <= 5 variables; diagrams read through the public fields var/low/high and the complement tag".into());
+    rep.assumptions.push("builder-level histories run on whatever table layout the allocator produces (all layouts are covered at table level in C02a / C16a)".into());
+    rep
+}
+
+/// run the shared engine and keep the violations that contradict `prop`
+pub fn run_for(ctx: &Ctx, prop: &str) -> Report {
+    let mut rep = run_all(ctx);
+    filter_for(&mut rep, prop);
+    rep
+}
+
+pub fn filter_for(rep: &mut Report, prop: &str) {
+    let prefix = format!("{}:", prop);
+    let before = rep.violations.len();
+    let other: Vec<String> = rep
+        .violations
+        .iter()
+        .filter(|v| !v.key.starts_with(&prefix))
+        .map(|v| v.key.clone())
+        .collect();
+    rep.violations.retain(|v| v.key.starts_with(&prefix));
+    if before != rep.violations.len() {
+        rep.set_extra("violations_attributed_to_other_properties", json!(other));
+    }
+    rep.n_violations = rep.violations.len() as u64;
+}
+
+pub fn replay_for(ctx: &Ctx, prop: &str, case: &Value) -> Report {
+    let mut rep = Report::default();
+    match case["kind"].as_str() {
+        Some("bdd_sweep") => {
+            if let Some(cfg) = Cfg::from_json(&case["cfg"]) {
+                // re-run the configuration's sweep (deterministic up to table layout); the lock-step
+                // comparison needs the cache-everything run first
+                let mut base = cfg.clone();
+                base.cache = CacheKind::All;
+                base.table_cap = 2;
+                let (_, dig) = run_sweep_cfg(&base, None, ctx);
+                let (r, _) = run_sweep_cfg(&cfg, if base.full_ite == cfg.full_ite { Some(&dig) } else { None }, ctx);
+                rep.merge(r);
+            }
+        }
+        Some("bdd_r1") => {
+            if let Some(cfg) = Cfg::from_json(&case["cfg"]) {
+                let hist: Vec<A1> = case["history"]
+                    .as_array()
+                    .map(|a| a.iter().filter_map(|s| parse_a1(s.as_str().unwrap_or(""))).collect())
+                    .unwrap_or_default();
+                let mut tr = 0;
+                let v = with_bdd_builder!(cfg, |b| r1_run(&b, &cfg, &hist, &mut tr));
+                if let Some((p, k, w)) = v {
+                    rep.violation(format!("{}:{}", p, k), w, case.clone());
+                }
+            }
+        }
+        _ => {}
+    }
+    filter_for(&mut rep, prop);
+    rep
+}
+
+fn parse_a1(s: &str) -> Option<A1> {
+    let (name, rest) = s.split_once('(')?;
+    let args: Vec<&str> = rest.trim_end_matches(')').split(',').map(|x| x.trim()).collect();
+    let u = |i: usize| -> Option<usize> { args.get(i)?.parse().ok() };
+    let bo = |i: usize| -> Option<bool> { args.get(i)?.parse().ok() };
+    Some(match name {
+        "Bin" => A1::Bin(u(0)? as u8, u(1)?, u(2)?),
+        "Ite" => A1::Ite(u(0)?, u(1)?, u(2)?),
+        "Neg" => A1::Neg(u(0)?),
+        "Cond" => A1::Cond(u(0)?, u(1)?, bo(2)?),
+        "Exists" => A1::Exists(u(0)?, u(1)?),
+        "Compose" => A1::Compose(u(0)?, u(1)?, u(2)?),
+        "CondModel" => A1::CondModel(u(0)?, u(1)?),
+        "NewVar" => A1::NewVar(bo(0)?),
+        _ => return None,
+    })
 }
